@@ -1202,10 +1202,14 @@ func (root *Root) AddEvent(id string, event interface{}) (cnt int, err error) {
 
 func (root *Root) assureSchema() {
 	if root.schema == nil {
-		root.schema = &Schema{Object: Object{fields: fieldList{dict: map[string]*FieldDef{}}}}
+		root.schema = &Schema{Object: Object{fields: fieldList{dict: map[string]*FieldDef{}}}, implicit: true}
+	}
+	if root.schema.implicit {
+		// Without a schema block the types named Query, Mutation and
+		// Subscription are the operation roots whenever they get loaded.
 		for _, cap := range []string{"Query", "Mutation", "Subscription"} {
-			if t := root.types.get(cap); t != nil {
-				name := strings.ToLower(cap)
+			name := strings.ToLower(cap)
+			if t := root.types.get(cap); t != nil && root.schema.fields.get(name) == nil {
 				_ = root.schema.fields.add(&FieldDef{Base: Base{N: name}, Type: t})
 			}
 		}
